@@ -62,7 +62,11 @@ func indices(n int) []uint32 {
 func check(ctx *pbt.Ctx, c Case) error {
 	m := c.Tx
 	n := len(m.In)
-	tx := ref.ToLibLoose(m)
+	tx, via := ref.ToLibLoose(m), "built"
+	if allTxIDs32(m) {
+		tx, via = ref.ToLibVia(m)
+	}
+	ctx.Label("object=" + via)
 	before := ref.Snapshot(tx)
 
 	anyNoTxID := -1
@@ -77,6 +81,19 @@ func check(ctx *pbt.Ctx, c Case) error {
 	ctx.Labelf("nin=%s", countClass(n))
 	ctx.Labelf("nout=%s", countClass(len(m.Out)))
 	ctx.Label("src=" + c.Src)
+	for i, o := range m.Out {
+		if len(o.Script) >= 65535 {
+			ctx.Labelf("huge_output:first=%v:over256k=%v", i == 0, len(o.Script) > 262144)
+		}
+	}
+	for _, in := range m.In {
+		if len(in.Unlock) >= 65535 {
+			ctx.Labelf("huge_unlock:over256k=%v", len(in.Unlock) > 262144)
+		}
+		if len(in.PrevScript) >= 65535 {
+			ctx.Labelf("huge_prevscript:over256k=%v", len(in.PrevScript) > 262144)
+		}
+	}
 	var sawSingleNoOut, sawErrIdx, sawErrTxID, sawErrScript, sawOtherDefect bool
 
 	for _, idx := range indices(n) {
@@ -251,11 +268,8 @@ func genCase(t *rapid.T) Case {
 		m.In[i].PrevScript, m.In[i].PrevNil = nil, true
 	}
 	// low weight: one very long script code (70 kB; 5-byte varint boundary is 65536)
-	if len(m.In) <= 8 && rapid.IntRange(0, 59).Draw(t, "huge") == 0 {
-		i := rapid.IntRange(0, len(m.In)-1).Draw(t, "huge_at")
-		if !m.In[i].PrevNil {
-			m.In[i].PrevScript = gen.FillBytes(t, rapid.SampledFrom([]int{65535, 65536, 70000, 131071, 131072, 131073, 200000, 262144}).Draw(t, "huge_len"), "huge_script")
-		}
+	if len(m.In) <= 8 && rapid.IntRange(0, 39).Draw(t, "huge") == 0 {
+		gen.HugeField(t, &m)
 	}
 	return Case{Src: "gen", Tx: m}
 }
@@ -318,4 +332,13 @@ func countSweep(tier string, yield func(Case)) {
 			}
 		}
 	}
+}
+
+func allTxIDs32(m ref.Tx) bool {
+	for _, in := range m.In {
+		if len(in.TxID) != 32 {
+			return false
+		}
+	}
+	return true
 }
